@@ -7,6 +7,8 @@ CONSTANTS
   MaxLit = 2
   Behs = {"ok"}
   Streams = {"none", "out"}
+  Rounds = 1
+  SecondIds = {1}
 INVARIANT H_inscope
 INVARIANT P_quiet
 INVARIANT P_verbosity
@@ -15,6 +17,7 @@ INVARIANT P_ansi
 INVARIANT P_nointeraction
 INVARIANT P_help
 INVARIANT P_version
+INVARIANT P_command
 INVARIANT P_afterdd
 INVARIANT A_runall
 INVARIANT Emit
